@@ -315,7 +315,7 @@ theorem C08_generated_merkletree_batch_avx512 (fuel : Nat) (tree input : Goldilo
           (GoldilocksVerif.leavesB512 (linearHash GoldilocksVerif.permAvxList) (linearHash512 GoldilocksVerif.perm512List)
             input num_cols.toNat dim.toNat batch_size.toNat k) ∧
       ∀ i, 4 * (2 * 2 ^ k - 1) ≤ i → t i = tree i := by
-  rw [GoldilocksVerif.mtb512_generic]
+  rw [GoldilocksVerif.mtb512_generic fuel tree input num_cols num_rows batch_size nThreads dim hb hcb]
   refine GoldilocksVerif.mtb512GenG_spec _ _ (linearHash GoldilocksVerif.permAvxList)
     (linearHash512 GoldilocksVerif.perm512List) ?_ ?_ _ GoldilocksVerif.nodeAvxList GoldilocksVerif.hash_avx_node
     fuel tree input num_cols num_rows batch_size dim k hR hk hprod h61 hb hcb hf1 hf2 hf3
